@@ -19,7 +19,7 @@ from pathlib import Path
 
 from harness import tlc
 from harness.core import Machinery
-from harness.gnpy_util import EX, TD, equipment
+from harness.gnpy_util import EX, TD, REPO, equipment
 from harness import documents_util as du
 
 ROOT = Path(__file__).resolve().parent.parent.parent
@@ -302,7 +302,7 @@ def file_kind(d):
 def observe_file(bench, path):
     from gnpy.tools.convert_legacy_yang import legacy_to_yang, yang_to_legacy
     from gnpy.yang.precision_dict import PRECISION_DICT
-    name = str(path.relative_to('/repo'))
+    name = str(path.relative_to(REPO))
     try:
         orig = json.loads(path.read_text())
     except Exception:                                   # noqa
